@@ -16,3 +16,19 @@ reg("C03", "runtime monitoring: frexp-exact power-of-two oracle, independent exp
 reg("C04", "runtime monitoring: code-set / sign / threshold oracles on outputs plus read-back of `scale` against an independent group-wise least-squares model",
     "Binary/ternary (and the inference path of the stochastic classes) over alpha modes x use_01 x thresholds x scale_axis / elements_per_scale groupings x exponent bounds x adversarial tensors of rank 1..4; scale constancy per independently derived group, least-squares optimum, po2-ness and exponent clipping, ternary threshold rule incl. the documented auto iteration.",
     "Reference adds the library's epsilon to the denominator; rank-1 tensors with explicit grouping are observed only.", "5/C04")
+
+reg("C05", "runtime monitoring: read-back of the exposed scale after every eager call; integer-code, per-channel, top-code, po2 and equivariance oracles",
+    "Auto-scaled quantized_bits / quantized_linear over bits 2..8, integer 0..3, scale_axis / elements_per_scale / exponent bounds / frozen post-training scales, tensors of rank 1..4 with magnitudes 1e-6..1e6 and zero or pruned channels; y == scale*step*k with k an in-range integer, one positive scale per independently derived channel group, 'auto' top code, exact po2 scales, finiteness, q(2^j x) == 2^j q(x).",
+    "Exponent bounds are read in the quantizer's own units (exposed scale / 2^unsigned_bits); equivariance ties in log2 are skipped and counted.", "5/C05")
+
+reg("C06", "runtime monitoring: tf.GradientTape gradient of every quantizer compared with the documented surrogate's gradient table",
+    "All differentiable quantizer classes x use_ste x qnoise_factor x slopes x bounds x alpha/auto scales x sigmoid flavours on 305 points spanning clipped and unclipped regions; gradient equals the surrogate's, is finite, not None and not identically zero on the unclipped range; forward value under the tape equals the plain call.",
+    "Kinks/clip edges excluded by +-1e-2; use_ste=False means (1-f) times the surrogate gradient as documented.", "5/C06")
+
+reg("C07", "runtime monitoring: interpolation oracle over four ways of setting the factor + online trace checker over the real QNoiseScheduler hooks",
+    "Part A: 14 knob-bearing quantizer configurations x use_ste x {constructor, update before build, Variable-backed update after build, built-then-rebuilt} x sequences of three factors: q_f(x) == u + f(v-u), q_0 == documented surrogate, factor read-back. Part B: generated (start, finish, exponent, update_freq, freq_type, initial, epochs x steps) histories driven through the callback hooks on six model families; after every hook the factors of all knob-bearing quantizers (enumerated independently of the scheduler) are logged and checked: 0 before start, 1 from finish, never decreasing, all knobs equal, every knob-bearing quantizer driven.",
+    "Hook order is Keras' documented order; exponent > 0.", "5/C07")
+
+reg("C08", "runtime monitoring with schedule control: tf.random.uniform replaced by a controlled stream (equidistributed grid + seeded real draws); adjacency/unbiasedness/fixed-point oracles; inference equality",
+    "All stochastic configurations (fixed point, ReLU incl. leaky, tanh, sigmoid, po2, relu_po2, binary, ternary, stochastic_binary/ternary) x ranks 1..3: every draw yields a representable code adjacent to the clipped input, the mean over K equidistributed draws equals the input to 1/K step (|x| for po2), codes are fixed points, and with the learning phase off outputs are bit-identical to the deterministic twin and repeatable.",
+    "Unbiasedness is decided for the library's use of the uniform stream, not for TF's generator; binary/ternary only membership + inference equality.", "5/C08")
